@@ -466,8 +466,16 @@ fn deps(line: &str) -> String {
             };
             let defs: Vec<Value> =
                 seq.iter().map(|(k, n)| analyze(&mut runner, k, n)).collect();
+            // the files in FileID order, as the tool numbered them (the order in which it read them)
+            let mut file_list = Vec::new();
+            let mut id = 0;
+            while let Ok(file) = runner.file_library().to_storage().get(id) {
+                file_list.push(json!({"id": id, "path": file.name(),
+                                      "user": runner.file_library().is_user_input(id)}));
+                id += 1;
+            }
             (json!({"user_functions": fnames, "user_templates": tnames,
-                    "all_templates": all_t, "all_functions": all_f}), defs)
+                    "all_templates": all_t, "all_functions": all_f, "files": file_list}), defs)
         });
         match res {
             Some((u, defs)) => {
